@@ -99,7 +99,10 @@ class R:
             elif e == "paren":
                 cur["from"].append((ev["a"], ["("] + self.from_list(self.paren_items()) + [")"]))
             elif e == "where":
-                cur["where"] = self.query()
+                if cur["where"] is not None:
+                    cur["where2"] = self.query()
+                else:
+                    cur["where"] = self.query()
             elif e == "isub":
                 cur["isub"] = self.query()
             elif e == "having":
@@ -174,7 +177,10 @@ class R:
 
     def tail(self, b):
         out = []
-        if b["where"]:
+        if b.get("where2"):
+            # both sides of one comparison are subqueries
+            out += [self.kw("where"), "("] + b["where"] + [")", ">", "("] + b["where2"] + [")"]
+        elif b["where"]:
             if self.o.where_op == "exists":
                 out += [self.kw("where"), self.kw("exists"), "("] + b["where"] + [")"]
             else:
@@ -239,7 +245,10 @@ class R:
             elif e == "paren":
                 cur["from"].append((ev["a"], ["("] + self.from_list(self.paren_items()) + [")"]))
             elif e == "where":
-                cur["where"] = self.query()
+                if cur["where"] is not None:
+                    cur["where2"] = self.query()
+                else:
+                    cur["where"] = self.query()
             elif e == "on":
                 j, toks = cur["from"][-1][:2]
                 cur["from"][-1] = (j, toks, self.query())
